@@ -649,7 +649,7 @@ func (r Registry[R, T]) LinkMessage(
 			responseResolver.Close(err)
 		}
 
-		verifhook.At("rpc.seterr.closed", "")
+		verifhook.AtErr("rpc.seterr.closed", err)
 
 		fatalErrLock.L.Lock()
 		if fatalErr == nil { // Only report the first fatal error, not errors that are a consequence of it
@@ -662,6 +662,8 @@ func (r Registry[R, T]) LinkMessage(
 	// The user is responsible for cancelling the context after LinkMessage has returned,
 	// so this is not a context leak
 	go func() {
+		verifhook.At("rpc.watcher.start", "")
+
 		<-ctx.Done()
 
 		verifhook.At("rpc.watcher.woke", "")
@@ -725,6 +727,8 @@ func (r Registry[R, T]) LinkMessage(
 		wg.Add(1)
 		go func() {
 			defer wg.Done()
+
+			verifhook.At("rpc.reqloop.start", "")
 
 			for {
 				b, err := readRequestCtx()
@@ -912,6 +916,8 @@ func (r Registry[R, T]) LinkMessage(
 		wg.Add(1)
 		go func() {
 			defer wg.Done()
+
+			verifhook.At("rpc.resloop.start", "")
 
 			for {
 				b, err := readResponseCtx()
